@@ -53,10 +53,11 @@ MANIFEST = dict(
          "C04_bms_read_returns: on that domain the read returns exactly when TimingMap.reseat() (C11) returns and the chart's tempo list "
          "is reseat's. C04_bms_read_initial_tempo: under the decidable text-level guard reseat_textb (script inside C11's wf_unseated "
          "and no_extend, no tempo object strictly inside measure 0) the read returns and the tempo list starts at 0 ms with the denoted "
-         "initial tempo. C04_bms_read_header (whole file, outright); id/measure codecs inverse; pair position 4i/k. Without the grid "
+         "initial tempo. C04_bms_read_tempo_list_on_lines: when every 03/08 object sits at position 0 of its measure (bms_tempo_on_lines) the read "
+         "returns and the chart's tempo list is exactly the denoted tempo script (count, order, ms, bpm, metronome 4). C04_bms_read_header (whole file, outright); id/measure codecs inverse; pair position 4i/k. Without the grid "
          "guard the statement is refuted by a machine-checked witness (KNOWN finding tempo-offgrid-resnap).",
-    note="Trusted: Coq kernel+VM, generator/serialiser, gen_tables, shift_jis codec (oracle). Not proved: the rest of the reseated tempo "
-         "list beyond its first point (C11's ReseatOK applies under reseat_guard but is not restated here), the initial tempo when a "
+    note="Trusted: Coq kernel+VM, generator/serialiser, gen_tables, shift_jis codec (oracle). Not proved: the reseated tempo "
+         "list beyond its first point when some tempo object is off the measure lines, the initial tempo when a "
          "tempo object lies strictly inside measure 0 (reseat re-expresses it as a shorter first measure), binary64 rounding "
          "(rounded stream, 1e-6 ms). The runner still evaluates read_theorem_domain per wf text as a redundant cross-check of "
          "C04_text_in_domain.",
